@@ -41,7 +41,9 @@ impl<T> serde::Serialize for SerializablePhantom<T> {
     where
         S: serde::Serializer,
     {
-        serializer.serialize_unit_struct(std::any::type_name::<T>())
+        // The type name is not a valid struct name in most formats (e.g. RON identifiers
+        // can't contain `::`), so it is serialized as the value of a newtype struct instead.
+        serializer.serialize_newtype_struct("Type", std::any::type_name::<T>())
     }
 }
 
